@@ -518,7 +518,10 @@ def write_evidence(prop, tier, seed, results, smt, wall, violations, notes, buil
                      for r in results if r["status"] in ("success", "failed"))
     samples = []
     for r in results:
-        samples.append({"engine": "kani/cbmc", "harness": r["harness"], "status": r["status"],
+        # a failing finding-witness that is listed in known_findings.json is recorded as such, so a
+        # reader (and tools/audit_evidence.py) can tell it from an unexpected failure
+        samples.append({"engine": "kani/cbmc", "harness": r["harness"],
+                        "status": "known-finding" if r.get("known_finding") else r["status"],
                         "cbmc_checks": r["checks"], "failed": r["failed"],
                         "covers": f"{r['covers_sat']}/{r['covers']}", "solver_s": r["solver_s"],
                         "wall_s": r["wall_s"], "functions_encoded": r["enc"], "bounds": r["bound"],
